@@ -1281,7 +1281,6 @@ KNOWN = {
     'F31-impose_bounds-nearest-picks-far-end-in-gap': k_bounds_nearest,
     'F32-impose_bounds-int-input-truncated': k_bounds_int,
     'F33-impose_at-int-input-truncates-target': k_at_int,
-    'F34-impose_as-chain-order-not-tied': k_as_split,
     'F35-impose_as-out-of-range-first-member': k_as_oor_source,
     'F36-impose_as-offset-reapplied-to-conforming-input': k_as_idem,
     'F37-unique-dict-int-hands-out-max': k_unique_max,
